@@ -7,6 +7,7 @@ import (
 	"fmt"
 	"math/rand"
 	"os"
+	"path/filepath"
 	"runtime"
 	"strconv"
 	"strings"
@@ -128,7 +129,7 @@ var c07Loops = []c07Loop{
 	{"retry-in-handler-loop", "(retry-loop2 0)", false},
 	{"eval", "(eval (quote (tail-loop 0)))", false},
 	{"eval-nested", "(eval (list (quote do) (list (quote tick!)) (quote (eval (quote (ping 0))))))", false},
-	{"load-file", "(load-file \"/tmp/verif-c07-loop.lisp\")", false},
+	{"load-file", "(load-file \"c07-loop.lisp\")", false}, // path set by runC07 (work directory)
 	{"sleep", "(do (tick!) (sleep 60000))", true},
 	{"future-sleep", "(do (tick!) @(future (sleep 60000)))", true},
 	{"future-loop", "(do (tick!) @(future (tail-loop 0)))", true},
@@ -374,7 +375,13 @@ func c07RunBlocking(c *fw.Ctx, canary *hx.Canary, id string, prog string, delay 
 }
 
 func runC07(c *fw.Ctx) {
-	os.WriteFile("/tmp/verif-c07-loop.lisp", []byte(";; loaded by C07\n(tick!)\n(tail-loop 0)\n"), 0o644)
+	loopFile := filepath.Join(c.WorkDir, fmt.Sprintf("c07-loop-%d.lisp", c.Shard))
+	os.WriteFile(loopFile, []byte(";; loaded by C07\n(tick!)\n(tail-loop 0)\n"), 0o644)
+	for i := range c07Loops {
+		if c07Loops[i].name == "load-file" {
+			c07Loops[i].src = fmt.Sprintf("(load-file %q)", loopFile)
+		}
+	}
 	r := c.Rand("progs")
 	canary := hx.StartCanary()
 	defer canary.Stop()
